@@ -719,7 +719,7 @@ func (k *c14case) checkContext(cs []*mdiff.Chunk, fi *mdiff.FileInfo) (text stri
 	return text
 }
 
-var c14names = []string{"a.txt", "dir/original.go", "with space.txt", "ünï.c", "b", "x/y/z", "---", "+++ q", "@@"}
+var c14names = []string{"a.txt", "dir/original.go", "with space.txt", "ünï.c", "b", "x/y/z", "---", "+++ q", "@@", "100%done.txt", "%s", "a%20b.c", "%!d(x)%v", "back\\slash", "quo\"te"}
 
 func c14fileInfo(r *rand.Rand) *mdiff.FileInfo {
 	if r.IntN(3) == 0 {
@@ -1017,6 +1017,14 @@ func c14randomPair(r *rand.Rand, maxLen int, safe bool) (left, right []string) {
 			if !safe || !strings.Contains(pool[i], "\r") {
 				break
 			}
+		}
+	}
+	if maxLen >= 30 && r.IntN(25) == 0 {
+		// a very long line (beyond common 4096-byte buffer sizes)
+		L := []int{4090, 4093, 4094, 4095, 4096, 4097, 5000, 8191, 8192, 9000, 20000}[r.IntN(11)]
+		pool[0] = strings.Repeat("long line ", L/10+1)[:L]
+		if r.IntN(2) == 0 {
+			pool[1] = pool[0][:L-1] + "!"
 		}
 	}
 	n := r.IntN(maxLen + 1)
